@@ -30,7 +30,7 @@ func bytesOf(s string) []interface{} {
 }
 
 func goStr(s string) enc.M {
-	return enc.M{"k": "string", "b": bytesOf(s), "low": bytesOf(strings.ToLower(s))}
+	return enc.M{"k": "string", "b": bytesOf(s), "low": bytesOf(strings.ToLower(s)), "x": enc.Pct(s)}
 }
 
 // goValue encodes a typed Go value for Helpers.tla.
